@@ -1008,7 +1008,10 @@ fn cast_into_memory(
 
         memory.write_all(val, *sub_ty, module, builder);
 
-        let discrim = builder.ins().iconst(ptr_ty, *discriminant as i64);
+        // the discriminant occupies exactly one byte (see `EnumLayout`), so it must be
+        // stored as an `i8`: a pointer-width store would overwrite the 7 bytes that
+        // follow the enum
+        let discrim = builder.ins().iconst(types::I8, *discriminant as i64);
         memory.write_val(builder, discrim, enum_layout.discriminant_offset() as i32);
 
         return Some(memory.into_value(builder, ptr_ty));
